@@ -406,9 +406,9 @@ func (s *Source) emit(idx int, n Notif) Emission {
 
 func (s *Source) last() int { return int(s.ready.Load()) - 1 }
 
-func (s *Source) Next(v int) Emission  { return s.emit(s.last(), Notif{K: rec.Next, V: v}) }
-func (s *Source) Error() Emission      { return s.emit(s.last(), Notif{K: rec.Error}) }
-func (s *Source) Complete() Emission   { return s.emit(s.last(), Notif{K: rec.Complete}) }
+func (s *Source) Next(v int) Emission   { return s.emit(s.last(), Notif{K: rec.Next, V: v}) }
+func (s *Source) Error() Emission       { return s.emit(s.last(), Notif{K: rec.Error}) }
+func (s *Source) Complete() Emission    { return s.emit(s.last(), Notif{K: rec.Complete}) }
 func (s *Source) Send(n Notif) Emission { return s.emit(s.last(), n) }
 func (s *Source) SendTo(idx int, n Notif) Emission {
 	return s.emit(idx, n)
